@@ -62,7 +62,7 @@ type Ctx struct {
 }
 
 // heapRecycleLimit: live heap (bytes) above which a worker hands the rest of its shard to a fresh process.
-var heapRecycleLimit = uint64(envInt("VF_HEAP_RECYCLE_MB", 2048)) << 20
+var heapRecycleLimit = uint64(envInt("VF_HEAP_RECYCLE_MB", 1024)) << 20
 
 func envInt(k string, d int) int {
 	if v := os.Getenv(k); v != "" {
